@@ -539,6 +539,9 @@ func rawParsers(c *hx.Ctx, seed uint64, n int) {
 
 func Run(c *hx.Ctx) {
 	c.Rep.Rule = "valid documents from the harness writers (PDF in random physical layouts, XLSX, HTML) x every single fault of the catalogue at every site (numbers -> 0,-1,2^31,2^63-1; references -> self/root/missing; delimiters removed/added; objects/members dropped/duplicated; stream data flipped/truncated; /Length, xref entries, /W, /Prev, /Size, trailer; truncation at token boundaries; targeted field rewrites) + sampled double faults + byte mutation + hostile token soup into the raw parsers; every case runs 5-6 public entry points under a 10 s deadline and a 3 GiB heap limit; every case is non-trivial"
+	xrefStreamOps(c)
+	gridOps(c)
+	ptreeOps(c)
 	ndocs := c.N(4, 30)
 	perDoc := c.N(450, 100000)
 	for d := 0; d < ndocs; d++ {
